@@ -51,8 +51,20 @@ func c10validator(ctx context.Context, database, username, password string) (con
 }
 
 // body builds a valid message body of exactly n bytes for the types that carry free text.
+var c10fills = []string{"q", "  \n\tSELECT  a ,\n    b\r\n  FROM   t", "\xc3\xa9\xe2\x82\xac ", "\t", "x \n"}
+var c10fill int
+
 func c10body(t byte, n int) ([]byte, bool) {
-	fill := func(k int) []byte { return bytes.Repeat([]byte{'q'}, k) }
+	// what a body is filled with varies from case to case: one letter, a formatted statement (line breaks,
+	// indentation, runs of blanks, leading white space), multi-byte text, tabs
+	fill := func(k int) []byte {
+		pat := c10fills[c10fill%len(c10fills)]
+		b := bytes.Repeat([]byte(pat), k/len(pat)+1)[:k]
+		if k > 0 {
+			b[0] = 'q' // (never a text of white space only: that would be a blank query)
+		}
+		return b
+	}
 	switch t {
 	case 'Q', 'p', 'f':
 		if n < 1 {
@@ -318,6 +330,7 @@ func (ch c10) runTLS(c *core.Ctx, env *hs.Env, k c10case) {
 }
 
 func (ch c10) runCase(c *core.Ctx, envPlain, envAuth *hs.Env, k c10case, idx int) {
+	c10fill = idx / 3
 	cs := map[string]any{"case": k.sig()}
 	viol := func(rule, sig, detail string) {
 		c.Violate(rule, sig, fmt.Sprintf("case %s: %s", k.sig(), detail), cs)
